@@ -16,15 +16,23 @@ EXTENDS Dispatch
 
 CONSTANTS StarWithCreds,     \* design switch: FALSE = the design (credentials => echo the origin, never "*")
           EmptyMeansAll,     \* design switch: FALSE = the design (an EMPTY allow_origins collection allows no origin at all)
-          StatusSucceeds     \* design switch: FALSE = the design (a raised HTTPStatus is a raised exception: not succeeded)
+          StatusSucceeds,    \* design switch: FALSE = the design (a raised HTTPStatus is a raised exception: not succeeded)
+          AliasCallerSet,    \* design switch: FALSE = the design (the policy is a snapshot taken at construction; TRUE = the
+                             \*   middleware keeps the caller's mutable container and reads it at every request)
+          MemoDecision       \* design switch: FALSE = the design (every request is decided afresh; TRUE = the middleware
+                             \*   memoises the origin decision of the first request that carried an Origin)
 
 VARIABLES wiring,    \* "none" | "enable" (App(cors_enable=True)) | "explicit" (App(middleware=[CORSMiddleware(..)]))
           cfg,       \* [ao: [star, set], ac: [star, set], eh: Seq(header name)]
           other,     \* [kind: "none" | "respfail" | "complete", pos: "before" | "after"]: one more middleware
           guard,     \* how often the duplicate-middleware guard fired
-          ans        \* the last exchange: [rq, beh, x, out]  (kind = "none" before the first one)
+          ans,       \* the last exchange: [rq, beh, x, out]  (kind = "none" before the first one)
+          caller,    \* the objects the caller handed to CORSMiddleware(..) AS THEY ARE NOW: [ao, ac: [form, star, items],
+                     \*   eh: [form, items]] - the caller may keep and mutate them after construction (CallerMutates)
+          served,    \* number of requests this (long-lived) middleware object has processed
+          memo       \* what a per-middleware memo would carry from one request to the next (never read by the design)
 
-cvars == <<vars, wiring, cfg, other, guard, ans>>
+cvars == <<vars, wiring, cfg, other, guard, ans, caller, served, memo>>
 
 ABSENT == "-"
 NoSet == [has |-> FALSE, v |-> {}]
@@ -34,6 +42,28 @@ NoHeaders == [acao |-> ABSENT, acac |-> ABSENT, aceh |-> <<>>, acam |-> NoSet, a
 
 DefaultCfg == [ao |-> [star |-> TRUE, set |-> {}], ac |-> [star |-> FALSE, set |-> {}], eh |-> <<>>]
 NoOther == [kind |-> "none", pos |-> "before"]
+
+(* Configuration as an object.  Each of allow_origins / allow_credentials is the string '*' (form "star"), None
+   ("none", allow_credentials / expose_headers only), one string ("str") or an iterable of strings in one of the
+   container forms; "set", "list" and "keys" (the live key view of a dict) can be mutated by the caller afterwards. *)
+STAR_ITEM == "*"
+ContainerForms == {"set", "frozenset", "list", "tuple", "gen", "keys"}
+MutableForms   == {"set", "list", "keys"}
+ArgForms       == {"star", "none", "str"} \cup ContainerForms
+Arg(form, star, items) == [form |-> form, star |-> star, items |-> items]          \* items: a set of strings
+EhArg(form, items)     == [form |-> form, items |-> items]                         \* items: a sequence of names
+NoCaller == [ao |-> Arg("star", TRUE, {}), ac |-> Arg("none", FALSE, {}), eh |-> EhArg("none", <<>>)]
+(* '*' is the wildcard only as the string literal; inside an iterable it is refused at construction *)
+WellFormedArg(a) == a.star \/ STAR_ITEM \notin a.items
+WellFormedArgs(args) == WellFormedArg(args.ao) /\ WellFormedArg(args.ac)
+(* the policy = what the arguments said at the moment of construction *)
+Snap(a) == [star |-> a.star, set |-> a.items]
+SnapCfg(args) == [ao |-> Snap(args.ao), ac |-> Snap(args.ac), eh |-> args.eh.items]
+(* the arguments of a configuration handed over in immutable form *)
+ImmutableArgs(c) == [ao |-> Arg(IF c.ao.star THEN "star" ELSE "frozenset", c.ao.star, c.ao.set),
+                     ac |-> Arg(IF c.ac.star THEN "star" ELSE "frozenset", c.ac.star, c.ac.set),
+                     eh |-> EhArg("tuple", c.eh)]
+NoMemo == [set |-> FALSE, allowed |-> FALSE, cred |-> FALSE]
 
 -----------------------------------------------------------------------------
 (* what generated user code (resource responder / sink) does, selected per request:
@@ -101,11 +131,12 @@ Allowed(c, o) == ConfigAllows(c, o) \/ (EmptyMeansAll /\ o # ABSENT /\ ~c.ao.sta
 CredOk(c, o)  == c.ac.star \/ o \in c.ac.set
 IsPreflight(rq, x) == x.succeeded /\ rq.m = "OPTIONS" /\ rq.acrm # ABSENT
 
-Process(c, rq, x) ==
-    IF ~Allowed(c, rq.origin) THEN x.hdr
+(* the policy, given the two decisions about the origin (allowed?  credentials?) *)
+ProcessWith(c, rq, x, allowed, cred) ==
+    IF ~allowed THEN x.hdr
     ELSE LET h0 == x.hdr
              h1 == IF h0.acao # ABSENT THEN h0               \* an origin decision made by the responder is kept
-                   ELSE IF CredOk(c, rq.origin)
+                   ELSE IF cred
                         THEN [h0 EXCEPT !.acao = (IF StarWithCreds /\ c.ao.star THEN "*" ELSE rq.origin), !.acac = "true"]
                         ELSE [h0 EXCEPT !.acao = (IF c.ao.star THEN "*" ELSE rq.origin)]
              h2 == IF c.eh # <<>> THEN [h1 EXCEPT !.aceh = c.eh] ELSE h1
@@ -117,7 +148,24 @@ Process(c, rq, x) ==
                      without an origin header that grants nothing *)
                   ELSE [h2 EXCEPT !.acao = ABSENT, !.aceh = <<>>, !.acam = NoSet, !.acah = ABSENT, !.acma = ABSENT]
 
-FinalOf(rq, x) == IF wiring = "none" THEN x.hdr ELSE Process(cfg, rq, x)
+(* THE LAW: the final headers are a function of (the configuration at construction, this request and its exchange) *)
+Process(c, rq, x) == ProcessWith(c, rq, x, Allowed(c, rq.origin), CredOk(c, rq.origin))
+
+(* what the middleware consults: the snapshot `cfg` - or, in the wrong design AliasCallerSet, the caller's own mutable
+   container as it is now ('*' that the caller added later is just an item of it) *)
+AliasOf(snap, a) == IF a.form \in MutableForms THEN [star |-> FALSE, set |-> a.items] ELSE snap
+EffCfg == IF AliasCallerSet
+          THEN [ao |-> AliasOf(cfg.ao, caller.ao), ac |-> AliasOf(cfg.ac, caller.ac),
+                eh |-> IF caller.eh.form \in MutableForms THEN caller.eh.items ELSE cfg.eh]
+          ELSE cfg
+Decide(rq, x) == IF MemoDecision /\ memo.set /\ rq.origin # ABSENT
+                 THEN ProcessWith(EffCfg, rq, x, memo.allowed, memo.cred)
+                 ELSE Process(EffCfg, rq, x)
+MemoAfter(rq) == IF MemoDecision /\ ~memo.set /\ rq.origin # ABSENT
+                 THEN [set |-> TRUE, allowed |-> Allowed(EffCfg, rq.origin), cred |-> CredOk(EffCfg, rq.origin)]
+                 ELSE memo
+
+FinalOf(rq, x) == IF wiring = "none" THEN x.hdr ELSE Decide(rq, x)
 Final(rq, beh) == FinalOf(rq, Seen(rq.m, rq.p, beh))
 
 -----------------------------------------------------------------------------
@@ -129,38 +177,68 @@ CInit(rs, ss, ts, b) ==
     /\ routes = rs /\ sinks = ss /\ statics = ts /\ sbs = b /\ n = Cardinality(rs) + Len(ss) + Len(ts)
     /\ last = Call("init", TRUE, 0, <<>>, "", {}, {}, <<>>, <<>>, FALSE)
     /\ wiring = "none" /\ cfg = DefaultCfg /\ other = NoOther /\ guard = 0 /\ ans = NoAns
+    /\ caller = NoCaller /\ served = 0 /\ memo = NoMemo
 
 (* App(cors_enable=True): a CORSMiddleware() with the default configuration is appended *)
 MakeEnable ==
     /\ wiring = "none" /\ ans.kind = "none"
     /\ wiring' = "enable" /\ cfg' = DefaultCfg
-    /\ UNCHANGED <<vars, other, guard, ans>>
+    /\ UNCHANGED <<vars, other, guard, ans, caller, served, memo>>
 
-(* App(middleware=[CORSMiddleware(allow_origins=.., allow_credentials=.., expose_headers=..)]) *)
+(* App(middleware=[CORSMiddleware(allow_origins=.., allow_credentials=.., expose_headers=..)]): the arguments are
+   validated and the policy is fixed HERE; the caller keeps its objects *)
+Configure(args) ==
+    /\ wiring = "none" /\ ans.kind = "none" /\ WellFormedArgs(args)
+    /\ wiring' = "explicit" /\ cfg' = SnapCfg(args) /\ caller' = args
+    /\ UNCHANGED <<vars, other, guard, ans, served, memo>>
+(* '*' inside an iterable: the constructor raises ValueError, there is no middleware *)
+ConfigureRejected(args) ==
+    /\ wiring = "none" /\ ans.kind = "none" /\ ~WellFormedArgs(args)
+    /\ wiring' = "rejected" /\ caller' = args
+    /\ UNCHANGED <<vars, cfg, other, guard, ans, served, memo>>
+(* the same with a configuration handed over in immutable form (nothing the caller could do to it later) *)
 MakeExplicit(c) ==
     /\ wiring = "none" /\ ans.kind = "none"
-    /\ wiring' = "explicit" /\ cfg' = c
-    /\ UNCHANGED <<vars, other, guard, ans>>
+    /\ wiring' = "explicit" /\ cfg' = c /\ caller' = ImmutableArgs(c)
+    /\ UNCHANGED <<vars, other, guard, ans, served, memo>>
+
+(* after construction the caller mutates the very object it passed (possible for the mutable forms only):
+   adds an origin, removes one, adds '*'; appends / removes an exposed header name.  The policy does not move. *)
+CallerMutatesOrigins(opt, how, item) ==
+    /\ wiring = "explicit" /\ opt \in {"ao", "ac"} /\ caller[opt].form \in MutableForms
+    /\ caller' = [caller EXCEPT ![opt].items = IF how = "add" THEN @ \cup {item} ELSE @ \ {item}]
+    /\ caller' # caller
+    /\ UNCHANGED <<vars, wiring, cfg, other, guard, ans, served, memo>>
+CallerMutatesExpose(how, item) ==
+    /\ wiring = "explicit" /\ caller.eh.form \in MutableForms
+    /\ caller' = [caller EXCEPT !.eh.items = IF how = "add" THEN Append(@, item) ELSE SelectSeq(@, LAMBDA y : y # item)]
+    /\ caller' # caller
+    /\ UNCHANGED <<vars, wiring, cfg, other, guard, ans, served, memo>>
+CallerMutates(opt, how, item) == IF opt = "eh" THEN CallerMutatesExpose(how, item) ELSE CallerMutatesOrigins(opt, how, item)
 
 (* add_middleware(CORSMiddleware()) on an app built with cors_enable=True raises and changes nothing *)
 AddCorsAgainRejected ==
     /\ wiring = "enable" /\ ans.kind = "none" /\ guard = 0
     /\ guard' = 1
-    /\ UNCHANGED <<vars, wiring, cfg, other, ans>>
+    /\ UNCHANGED <<vars, wiring, cfg, other, ans, caller, served, memo>>
 
 AddOther(kind, pos) ==
-    /\ wiring # "none" /\ other.kind = "none" /\ ans.kind = "none"
+    /\ wiring \in {"enable", "explicit"} /\ other.kind = "none" /\ ans.kind = "none"
     /\ other' = [kind |-> kind, pos |-> pos]
-    /\ UNCHANGED <<vars, wiring, cfg, guard, ans>>
+    /\ UNCHANGED <<vars, wiring, cfg, guard, ans, caller, served, memo>>
 
 (* one request; the behaviour of user code is a dimension only where user code runs *)
-Exchange(rq, beh) ==
-    /\ wiring # "none" /\ ans.kind = "none"
+Serve(rq, beh) ==
+    /\ wiring \in {"enable", "explicit"}
     /\ LET o == Outcome(rq.m, rq.p)
            x == SeenFor(o, rq.m, rq.p, beh)
        IN  /\ (beh # "plain" => (o.kind \in {"Responder", "Sink"} /\ other.kind # "complete"))
            /\ ans' = [kind |-> "exchange", rq |-> rq, beh |-> beh, x |-> x, out |-> FinalOf(rq, x)]
-    /\ UNCHANGED <<vars, wiring, cfg, other, guard>>
+    /\ served' = served + 1 /\ memo' = MemoAfter(rq)
+    /\ UNCHANGED <<vars, wiring, cfg, other, guard, caller>>
+(* the first request of an app / any later one: the middleware object lives as long as the app *)
+Exchange(rq, beh)    == ans.kind = "none" /\ Serve(rq, beh)
+NextRequest(rq, beh) == ans.kind = "exchange" /\ Serve(rq, beh)
 
 -----------------------------------------------------------------------------
 (* the property, clause by clause, over the last exchange *)
@@ -200,6 +278,10 @@ DeniedPreflightWithdrawsGrants ==
    Allow stays *)
 NoApprovalAfterRaise == (Answered /\ Raises(ans.beh)) =>
                             /\ ~ans.x.succeeded /\ ~MwAddedPreflight /\ A_out.allow = A_in.allow
+(* configuration as state / several requests on one app: whatever the caller did to its objects after construction and
+   whatever was served before, the final headers are those the configuration AT CONSTRUCTION gives for THIS request *)
+GrantFunctionOfConfigAndRequest == Answered => A_out = Process(cfg, A_rq, ans.x)
+PolicyFixedAtConstruction == [][wiring = "explicit" => (cfg' = cfg /\ wiring' = wiring)]_cvars
 (* outside an approved / denied preflight the Allow header is never touched *)
 AllowOtherwiseKept == (Answered /\ ~Pre) => A_out.allow = A_in.allow
 =========================================================================
